@@ -123,8 +123,9 @@ class Evidence:
             "wall_s": round(wall, 2),
             "violations": violations,
         }
-        os.makedirs(os.path.join(HERE, "evidence"), exist_ok=True)
-        with open(os.path.join(HERE, "evidence", f"{self.prop}.json"), "w") as f:
+        evdir = os.environ.get("VF_EVIDENCE_DIR") or os.path.join(HERE, "evidence")
+        os.makedirs(evdir, exist_ok=True)
+        with open(os.path.join(evdir, f"{self.prop}.json"), "w") as f:
             json.dump(doc, f, indent=1, default=str)
 
 
